@@ -38,17 +38,32 @@ RULE = ('case = one search-space description. Exhaustive part (same for every '
         'depth <= 2) whose reference size is <= max_dnas (quick 6, thorough 64), '
         'plus all 30 single flat choices whatever their size (<= 64 members), plus '
         '12 fixed descriptions with float / custom leaves and the constant root '
-        'space; partitioned over the '
+        'space, plus the fixed float family (every scale None / linear / log / '
+        'rlog x groups of <= 3 ranges of one class: pinned min == max on awkward '
+        'doubles, 1-3 ulps wide, ordinary, huge, signed, and hi - lo not '
+        'representable; alone, next to a choice or in a conditional sub-space); '
+        'partitioned over the '
         'shards by index; followed by `random` seeded larger descriptions per '
-        'shard (floats, custom points, depth <= 3). For each: full iteration vs '
+        'shard (floats of one random scale and range class, custom points, '
+        'depth <= 3). For each: full iteration vs '
         'the reference enumeration (set, order, count, strict increase, end), '
         'space_size, next_dna from rebuilt DNAs, first_dna + DNA.iter_dna, '
-        'Sweeping, shape + validate of iterated DNAs, DNA() / validate / binding / '
+        'Sweeping as a history of setup() calls on ONE generator object (the '
+        'main sweep on the fresh generator or after a use of 0, 1, 2 or all '
+        'proposals, then further short uses; targets: the same spec object, an '
+        'equal copy, another spec, an earlier object; every use must propose the '
+        'reference enumeration of its target from the beginning), '
+        'shape + validate of iterated DNAs, DNA() / validate / binding / '
         'from_numbers on reference members and on one-step corruptions (one per '
         'class of corruption and kind of decision point; extra children come as '
         '1, 2 or 3 children at any position below leaves - constant candidates, '
         'floats, custom points, the constant root - and below inner nodes), '
-        'random_dna membership. '
+        'random_dna membership (reference membership lo <= v <= hi, never the '
+        'library validate) with a seeded random.Random and, for floats, with '
+        'random.Random subclasses whose uniform() / random() return the extremes '
+        '(lo, hi, both in turn, random() = 0.0, random() = 1 - 2**-53); '
+        'pg.random_dna and a geno.Random generator, also set up again on '
+        'another spec and back. '
         'Non-trivial = at least 2 members and a multi-choice or a conditional '
         'sub-space; distinct by description.')
 REQUIRED_COUNTERS = ['iter_full', 'size_checks', 'lt_checks', 'next_checks',
@@ -60,6 +75,8 @@ ASSUMPTIONS = [
     'a DNA-shaped input is judged on the (value, children) shape that pg.DNA reports after construction, so inputs that normalise to a member count as members; corrupted trees that normalise to another non-member are keyed reshaped:tree',
     'rejection = any exception from validate/binding; acceptance = normal return',
     'NaN floats and bool indices are not generated (left open by the property)',
+    'the scale of a float is a hint: it never changes the set of members; a generator whose uniform(a, b) returns a or b, or whose random() returns 0.0 or 1 - 2**-53, is an admissible random.Random',
+    'setup(spec) starts a generator afresh whatever it was set up on and however much it proposed before: after it a Sweeping generator proposes the enumeration of spec from its first DNA',
     'random specs larger than random_max members are iterated on a prefix only; Sweeping is followed to its end for spaces of <= sweep_full members, else on its first sweep_prefix proposals',
     'quick tries <= corrupt_kinds classes of corruption per description (all classes on the leaf family), thorough all of them',
 ]
